@@ -6,8 +6,21 @@
 #include <cstring>
 #include <vector>
 #include <string>
+#include <cstddef>
+#include <cfloat>
+#include <cmath>
+#include <iostream>
 #include "libavoid/libavoid.h"
 #include "libavoid/geometry.h"
+#include "libvpsc/rectangle.h"
+// linesegment.h (header-only class + two non-inline demo functions that rectangle.o of libvpsc also defines: rename
+// this translation unit's copies).  The harness calls this copy of LineSegment::Intersect directly and the copy
+// compiled into libvpsc through vpsc::Rectangle::lineIntersections.
+#define DoLineSegmentIntersection c16_DoLineSegmentIntersection
+#define test c16_linesegment_test
+#include "libvpsc/linesegment.h"
+#undef test
+#undef DoLineSegmentIntersection
 
 using namespace Avoid;
 
@@ -28,6 +41,21 @@ static void flush_section(const char *name)
 
 static char sgnc(int v) { return v < 0 ? '-' : (v > 0 ? '+' : '0'); }
 
+// LineSegment::Intersect on integer points; the out-parameter starts as (-77,-77).
+// result char: '0' + code (PARALLEL 0, COINCIDENT 1, NOT_INTERSECTING 2, INTERSECTING 3), + 4 if the out-parameter was
+// written although the result is not INTERSECTING.
+static char ls_intersect(double ax, double ay, double bx, double by, double cx, double cy, double dx, double dy,
+                         double *x, double *y)
+{
+    linesegment::LineSegment s(linesegment::Vector(ax, ay), linesegment::Vector(bx, by));
+    linesegment::LineSegment o(linesegment::Vector(cx, cy), linesegment::Vector(dx, dy));
+    linesegment::Vector iv(-77, -77);
+    int r = (int) s.Intersect(o, iv);
+    *x = iv.x_; *y = iv.y_;
+    bool touched = !(iv.x_ == -77 && iv.y_ == -77);
+    return (char) ('0' + r + ((r != linesegment::LineSegment::INTERSECTING && touched) ? 4 : 0));
+}
+
 // Random-stream mode ("rand"): reads lines "ax ay bx by cx cy dx dy qx qy" (integers, |v| <= 2^20) from stdin and
 // prints one line per tuple: a fixed-position string of discrete results, then the numeric results.
 //   pos 0 vecDir(a,b,c)  1 pointOnLine(a,b,c)  2 colinear(a,b,c)  3 inBetween(a,b,c) ('.' if not collinear)
@@ -35,7 +63,8 @@ static char sgnc(int v) { return v < 0 ? '-' : (v > 0 ? '+' : '0'); }
 //   7,8 inValidRegion(ig=0/1,a,b,c,d)  9 cornerSide(a,b,c,d)  10 segmentIntersectPoint code  11 rayIntersectPoint code
 //   12-14 inPoly([a;b;c;d], q', false) for q' = a, q, d   15-17 the same with countBorder = true
 //   18-20 inPolyGen([a;b;c;d], q') for q' = a, q, d
-// then: sip.x sip.y (or "- -")  ray.x ray.y (or "- -")  manhattanDist(a,b)
+//   21 LineSegment(a,b).Intersect(LineSegment(c,d))  22 LineSegment(c,d).Intersect(LineSegment(a,b))
+// then: sip.x sip.y (or "- -")  ray.x ray.y (or "- -")  manhattanDist(a,b)  ls.x ls.y of position 21 (or "- -")
 static int rand_mode()
 {
     long v[10];
@@ -68,10 +97,15 @@ static int rand_mode()
         const Point *qs[3] = { &a, &q, &d };
         for (int cb = 0; cb < 2; ++cb) for (int k = 0; k < 3; ++k) o.push_back(inPoly(poly, *qs[k], cb) ? '1' : '0');
         for (int k = 0; k < 3; ++k) o.push_back(inPolyGen(poly, *qs[k]) ? '1' : '0');
+        double lx, ly, lx2, ly2;
+        char l1 = ls_intersect(v[0], v[1], v[2], v[3], v[4], v[5], v[6], v[7], &lx, &ly);
+        o.push_back(l1);
+        o.push_back(ls_intersect(v[4], v[5], v[6], v[7], v[0], v[1], v[2], v[3], &lx2, &ly2));
         fputs(o.c_str(), stdout);
         if (sc == DO_INTERSECT) printf(" %.17g %.17g", sx, sy); else printf(" - -");
         if (rc == DO_INTERSECT) printf(" %.17g %.17g", rx, ry); else printf(" - -");
-        printf(" %.17g\n", manhattanDist(a, b));
+        printf(" %.17g", manhattanDist(a, b));
+        if (l1 == '3') printf(" %.17g %.17g\n", lx, ly); else printf(" - -\n");
     }
     return 0;
 }
@@ -190,5 +224,51 @@ int main(int argc, char **argv)
         for (size_t q = 0; q < m; ++q) out.push_back(inPolyGen(poly, pp[q]) ? '1' : '0');
     }
     flush_section("inPolyGen4");
+
+    // ---- libvpsc: LineSegment::Intersect on all pairs of segments of the G grid (including zero-length ones)
+    for (size_t i = 0; i < n; ++i) for (size_t j = 0; j < n; ++j)
+        for (size_t k = 0; k < n; ++k) for (size_t l = 0; l < n; ++l) {
+            double x, y;
+            out.push_back(ls_intersect(pts[i].x, pts[i].y, pts[j].x, pts[j].y, pts[k].x, pts[k].y, pts[l].x, pts[l].y, &x, &y));
+        }
+    flush_section("LineSegment_Intersect");
+    printf("## LineSegment_Intersect_xy 0\n");
+    for (size_t i = 0; i < n; ++i) for (size_t j = 0; j < n; ++j)
+        for (size_t k = 0; k < n; ++k) for (size_t l = 0; l < n; ++l) {
+            double x, y;
+            char r = ls_intersect(pts[i].x, pts[i].y, pts[j].x, pts[j].y, pts[k].x, pts[k].y, pts[l].x, pts[l].y, &x, &y);
+            if (r == '3') printf("%zu %zu %zu %zu %.17g %.17g\n", i, j, k, l, x, y);
+        }
+    // ---- vpsc::Rectangle::lineIntersections: all rectangles [x0,x1] x [y0,y1] with 0 <= x0 <= x1 < GR, 0 <= y0 <= y1 < GR
+    // (zero width / height set through set_width / set_height: the constructor asserts x < X, y < Y) against all lines
+    // between points of the grid [-1, GR]^2.  One char per case: 'A' + intersects + 2 top + 4 bottom + 8 left + 16 right.
+    {
+        int GR = (G <= 4) ? 4 : 5;
+        if (argc > 3) GR = atoi(argv[3]);
+        std::vector<std::pair<int,int> > lp;
+        for (int x = -1; x <= GR; ++x) for (int y = -1; y <= GR; ++y) lp.push_back(std::make_pair(x, y));
+        std::string xy;
+        char buf[160];
+        size_t ridx = 0;
+        for (int x0 = 0; x0 < GR; ++x0) for (int x1 = x0; x1 < GR; ++x1)
+        for (int y0 = 0; y0 < GR; ++y0) for (int y1 = y0; y1 < GR; ++y1, ++ridx) {
+            vpsc::Rectangle r(x0, x0 + 1, y0, y0 + 1);
+            r.set_width(x1 - x0);
+            r.set_height(y1 - y0);
+            for (size_t i = 0; i < lp.size(); ++i) for (size_t j = 0; j < lp.size(); ++j) {
+                vpsc::RectangleIntersections ri;
+                r.lineIntersections(lp[i].first, lp[i].second, lp[j].first, lp[j].second, ri);
+                out.push_back((char) ('A' + (ri.intersects ? 1 : 0) + (ri.top ? 2 : 0) + (ri.bottom ? 4 : 0)
+                                      + (ri.left ? 8 : 0) + (ri.right ? 16 : 0)));
+                if (ri.top)    { snprintf(buf, sizeof buf, "%zu %zu %zu T %.17g %.17g\n", ridx, i, j, ri.topX, ri.topY); xy += buf; }
+                if (ri.bottom) { snprintf(buf, sizeof buf, "%zu %zu %zu B %.17g %.17g\n", ridx, i, j, ri.bottomX, ri.bottomY); xy += buf; }
+                if (ri.left)   { snprintf(buf, sizeof buf, "%zu %zu %zu L %.17g %.17g\n", ridx, i, j, ri.leftX, ri.leftY); xy += buf; }
+                if (ri.right)  { snprintf(buf, sizeof buf, "%zu %zu %zu R %.17g %.17g\n", ridx, i, j, ri.rightX, ri.rightY); xy += buf; }
+            }
+        }
+        flush_section("lineIntersections");
+        printf("## lineIntersections_xy 0\n");
+        fputs(xy.c_str(), stdout);
+    }
     return 0;
 }
